@@ -43,7 +43,8 @@ def run_demo(demo, wt):
     try:
         env = dict(os.environ, PYTHONPATH=d, OMP_NUM_THREADS="1",
                    MPLBACKEND="Agg", PYTHONWARNINGS="ignore")
-        r = sh([PY, demo], env=env, cwd=d, timeout=1800)
+        # (some demos take the checkout to import from as argv[1])
+        r = sh([PY, demo, d], env=env, cwd=d, timeout=1800)
         return r.returncode, (r.stdout + r.stderr)[-600:]
     finally:
         shutil.rmtree(d, ignore_errors=True)
